@@ -187,11 +187,14 @@ pub fn jobs(tier: Tier, seed: u64) -> Vec<Job> {
     must.extend(rest);
     let mut out = super::c07::conformance_jobs(tier, &[0, 1, 2, 4]);
     // three operations with fixed arities and free wiring (operations whose producers sit in different layers)
-    let base = vec![(0usize, 2usize), (1, 1), (2, 0)];
-    for perm in crate::plain::perms(3) {
-        let profile: Vec<(usize, usize)> = perm.iter().map(|i| base[*i]).collect();
-        for c in profile_cases(profile, 3) {
-            out.push(case_job(c, base_cfg(tier), per_job, tier == Tier::Quick));
+    // (a producer of two wires, a relay, a consumer of two) and (a producer of two, a consumer of two that
+    // produces one, a consumer): operations fed by parallel wires that have dependents themselves
+    for base in [vec![(0usize, 2usize), (1, 1), (2, 0)], vec![(0, 2), (2, 1), (1, 0)]] {
+        for perm in crate::plain::perms(3) {
+            let profile: Vec<(usize, usize)> = perm.iter().map(|i| base[*i]).collect();
+            for c in profile_cases(profile, 3) {
+                out.push(case_job(c, base_cfg(tier), per_job, tier == Tier::Quick));
+            }
         }
     }
     for (i, sh) in must.into_iter().enumerate() {
